@@ -18,6 +18,7 @@ type gen struct {
 	num    string // a string leaf that reads as a number / byte size
 	dur    string // a string leaf that reads as a duration
 	key    string // the key of keyed maps
+	numStr bool   // numbers are written as the string spelling of the literal ("1", "0", "-1") wherever the schema also admits a string
 	numVar bool   // numbers are written as variables (${ONE}, ${ZERO}, ${NEG}) wherever the schema also admits a string
 	noExt  bool   // no x- extension attributes (the JSON rendering omits them below the top level by design)
 }
@@ -154,6 +155,8 @@ func (g *gen) examples(n map[string]any, depth int) []any {
 			}
 			if g.numVar && admitsString {
 				lists = append(lists, []any{"${ONE}", "${ZERO}", "${NEG}"})
+			} else if g.numStr && admitsString {
+				lists = append(lists, []any{"1", "0", "-1"})
 			} else {
 				lists = append(lists, []any{1, 0, -1})
 			}
@@ -292,7 +295,7 @@ func genPick(atom, num, dur string) (site genSite, attr string, value any, ok bo
 	root := vrtSchemaTree()
 	dotted := vrtParam("DOTTED", 0)
 	if dotted < 0 {
-		dotted = vrtChoice("dottedNames", 3)
+		dotted = vrtChoice("dottedNames", 4)
 	}
 	genSvc, genRes, genKey = "s", "r", "k1"
 	switch dotted {
@@ -301,6 +304,9 @@ func genPick(atom, num, dur string) (site genSite, attr string, value any, ok bo
 	case 2:
 		// names that merely contain the extension prefix
 		genSvc, genRes, genKey = "nx-s", "nx-r", "kx-1"
+	case 3:
+		// names that start like an extension key (valid names for services and resources)
+		genSvc, genRes, genKey = "x-s", "x-r", "k1"
 	}
 	g := &gen{root: root, atom: atom, num: num, dur: dur, key: genKey, noExt: genNoExt}
 	genNoExt = false // one-shot: the next pick starts from the default again
